@@ -48,12 +48,13 @@ _MISSING = _optional()
 PARTIAL = [
     "number printing / parsing (str, repr, '{:.18f}', json, float(str)) is not modelled: numbers are abstract tokens; "
     "its round trip is checked by the float-mode oracle only, at the printed precision",
-    "evaluation: proved that A3.1 / A3.5 / volume evaluation on the reimported data (same net, knots normalised) at the normalised "
-    "parameter and the same span returns the exported shape's point (C14.*_point_after_import); not proved here: the span search "
-    "finds the same span on the normalised vector (monotone map), and a non-rational shape evaluates like its unit-weight rational "
-    "form (partition of unity, C03/C09) - both are compared by the oracle in exact arithmetic",
-    "2-D file helpers of compatibility: the repaired flip / pinned refutations are kernel-checked on the 2x3 instance only; the general "
-    "rectangular statement is covered by the correspondence (sizes 1x3 .. 4x3) and the oracle, not by a theorem",
+    "evaluation (now END-TO-END theorems C14.*_same_point(s): export -> import -> evaluate_single through the library's span search, "
+    "rational or not, curves / surfaces / volumes, smesh / vmesh / dict form, containers elementwise, every parameter of the closed domain): "
+    "hypotheses beyond the readers' guard are a non-empty last span of the domain per direction and stored points of one length; "
+    "not covered: derivatives of the reimported shape, evaluation of freeform trims, the txt / csv formats (they carry control points only)",
+    "2-D file helpers of compatibility: the repaired flip / weight / unweight helpers and the pinned flip's IndexError are now theorems for "
+    "every rectangular file (C14.flip2d_repaired_all_sizes, weight2d_repaired_all_sizes, flip2d_pinned_refutes_all_nonsquare); the broken "
+    "line structure the pinned SAVER produces without a flip (weight2dFilePinned) is kernel-checked on the 2x3 instance only",
     "directory import: the theorems cover the files in enumeration order; `sorted(os.listdir())` is lexicographic, so a "
     "container of 10 or more shapes comes back as 1,10,11,2,... (the property quantifies over 1..4 shapes)",
     "the per-point length validation of the readers (`validate_and_clean`) is not in the model's reader guard",
